@@ -212,4 +212,7 @@ def run(ctx) -> None:
     rule_P3(ctx, "pydantic")
     from . import presence
     ctx.rules_run.append("D1")
+    from . import phases
+    ctx.rules_run.append("Y7")
+    phases.rule_Y7(ctx)       # import decisions are not stale snapshots; all annotation producers handle shadowed builtins
     presence.rule_D1(ctx)     # the pydantic mode declares every oneof member optional=True: the runtime's unset/selection logic must cope with that
